@@ -2,6 +2,8 @@
 EXTENDS Placement, Json, TLCExt, SequencesExt
 PairSeq(S) == SetToSeq(S)
 Str(t) == [i \in 1..Len(t) |-> t[i].k]
+\* state constraint of the `ifelse` configurations: bodies that begin with an if statement (longer bodies, fewer of them)
+IfFirst == Len(toks) = 0 \/ toks[1].k = "I"
 EmitCase == done =>
     PrintT(<<"CASE", ToJson([b |-> Str(toks),
                              errs |-> PairSeq(RuleErrors(toks)),
